@@ -156,4 +156,261 @@ theorem cl_body (payload rest : Bytes) :
   simp
 
 
+/-! ## statusLine()'s cache is transparent -/
+
+/-- the line a cache entry under key `k` must hold -/
+def lineFor (k : Int) : Bytes := statusLine (decide (0 < k)) k.natAbs
+
+/-- cache invariant: every entry holds the Status-Line of its own key (version AND code) -/
+def CacheOK (c : Cache) : Prop := ∀ kl ∈ c, kl.1 ≠ 0 ∧ kl.2 = lineFor kl.1
+
+theorem lookup_mem (c : Cache) (k : Int) (l : Bytes) (h : c.lookup k = some l) : (k, l) ∈ c := by
+  induction c with
+  | nil => simp [List.lookup] at h
+  | cons x t ih =>
+    obtain ⟨k', l'⟩ := x
+    by_cases hk : k = k'
+    · subst hk; simp [List.lookup] at h; subst h; simp
+    · have : (k == k') = false := by simpa using hk
+      simp only [List.lookup, this] at h
+      exact List.mem_cons_of_mem _ (ih h)
+
+theorem lineFor_cacheKey (p : Bool) (code : Nat) (h : cacheKey p code ≠ 0) :
+    lineFor (cacheKey p code) = statusLine p code := by
+  unfold lineFor cacheKey at *
+  cases p with
+  | true =>
+    have hc : 0 < code := by simp at h; omega
+    have : decide (0 < code) = true := by simpa using hc
+    simp [this]
+  | false =>
+    have : decide ((code : Int) < 0) = false := by simp
+    simp [this]
+
+theorem statusText_ne_zero (code : Nat) (h : (statusText code).isSome = true) : code ≠ 0 := by
+  intro hc; subst hc; simp [statusText] at h
+
+theorem statusLineCached_ok (c : Cache) (p : Bool) (code : Nat) (h : CacheOK c) :
+    (statusLineCached c p code).1 = statusLine p code ∧ CacheOK (statusLineCached c p code).2 := by
+  unfold statusLineCached
+  simp only []
+  cases hl : c.lookup (cacheKey p code) with
+  | some l =>
+    have hm := h _ (lookup_mem c _ l hl)
+    have h1 : cacheKey p code ≠ 0 := hm.1
+    have h2 : l = lineFor (cacheKey p code) := hm.2
+    exact ⟨by simp only []; rw [h2]; exact lineFor_cacheKey p code h1, h⟩
+  | none =>
+    refine ⟨rfl, ?_⟩
+    show CacheOK (if (statusText code).isSome = true then (cacheKey p code, statusLine p code) :: c else c)
+    by_cases ht : (statusText code).isSome = true
+    · rw [if_pos ht]
+      intro kl hkl
+      rcases List.mem_cons.mp hkl with hkl | hkl
+      · rw [hkl]
+        have hne : cacheKey p code ≠ 0 := by
+          have := statusText_ne_zero code ht
+          unfold cacheKey; cases p <;> simp <;> omega
+        exact ⟨hne, (lineFor_cacheKey p code hne).symm⟩
+      · exact h kl hkl
+    · rw [if_neg ht]; exact h
+
+theorem renderCached_ok (c : Cache) (s : St) (h : CacheOK c) :
+    (renderCached c s).1 = render s ∧ CacheOK (renderCached c s).2 := by
+  unfold renderCached render
+  cases hh : s.head with
+  | none => simp [hh]; exact h
+  | some cl =>
+    obtain ⟨code, ls⟩ := cl
+    have := statusLineCached_ok c s.rq.proto11 code h
+    simp only []
+    refine ⟨?_, this.2⟩
+    simp [renderHead, this.1, List.append_assoc]
+
+theorem history_ok (es : List (Req × Bool × List Act)) (c : Cache) (h : CacheOK c) :
+    ∀ sb ∈ history c es, sb.2 = render sb.1 := by
+  induction es generalizing c with
+  | nil => intro sb hsb; simp [history] at hsb
+  | cons e t ih =>
+    obtain ⟨rq, ka, script⟩ := e
+    intro sb hsb
+    have hr := renderCached_ok c (respond rq ka script) h
+    simp only [history, List.mem_cons] at hsb
+    rcases hsb with hsb | hsb
+    · subst hsb; exact hr.1
+    · exact ih _ hr.2 sb hsb
+
+/-! ## Hex round trip and the chunked layer of `C27_parses` -/
+
+/-- digit-level mirror of hexNatAux -/
+def hexDigsAux : Nat → Nat → List Nat → List Nat
+  | 0, _, acc => acc
+  | fuel + 1, n, acc => if n < 16 then n :: acc else hexDigsAux fuel (n / 16) (n % 16 :: acc)
+
+theorem hexNatAux_map (fuel n : Nat) (acc : List Nat) :
+    hexNatAux fuel n (acc.map hexDigitC) = (hexDigsAux fuel n acc).map hexDigitC := by
+  induction fuel generalizing n acc with
+  | zero => simp [hexNatAux, hexDigsAux]
+  | succ f ih =>
+    unfold hexNatAux hexDigsAux
+    split
+    · simp
+    · have := ih (n / 16) (n % 16 :: acc)
+      simpa using this
+
+theorem hexDigsAux_lt (fuel n : Nat) (acc : List Nat) (h : ∀ d ∈ acc, d < 16) :
+    ∀ d ∈ hexDigsAux fuel n acc, d < 16 := by
+  induction fuel generalizing n acc with
+  | zero => simpa [hexDigsAux] using h
+  | succ f ih =>
+    unfold hexDigsAux
+    split
+    · rename_i hn; intro d hd; simp at hd; rcases hd with hd | hd
+      · omega
+      · exact h d hd
+    · apply ih; intro d hd; simp at hd; rcases hd with hd | hd
+      · omega
+      · exact h d hd
+
+theorem hexDigsAux_ne_nil (fuel n : Nat) (acc : List Nat) : hexDigsAux (fuel + 1) n acc ≠ [] := by
+  induction fuel generalizing n acc with
+  | zero => unfold hexDigsAux; split <;> simp [hexDigsAux]
+  | succ f ih =>
+    unfold hexDigsAux
+    split
+    · simp
+    · exact ih _ _
+
+def horner (a d : Nat) : Nat := a * 16 + d
+
+theorem hexDigsAux_val (fuel n : Nat) (acc : List Nat) (h : n < 16 ^ fuel) :
+    (hexDigsAux fuel n acc).foldl horner 0 = acc.foldl horner n := by
+  induction fuel generalizing n acc with
+  | zero => simp at h; subst h; simp [hexDigsAux]
+  | succ f ih =>
+    unfold hexDigsAux
+    split
+    · simp [horner]
+    · have hlt : n / 16 < 16 ^ f := by
+        apply Nat.div_lt_of_lt_mul; rw [Nat.pow_succ] at h; omega
+      rw [ih _ _ hlt]
+      simp only [List.foldl_cons, horner]
+      congr 1; omega
+
+theorem hexVal_digit (d : Nat) (h : d < 16) :
+    hexValB (hexDigitC d) = some d ∧ hexDigitC d ≠ 59 ∧ hexDigitC d ≠ 13 := by
+  have : d = 0 ∨ d = 1 ∨ d = 2 ∨ d = 3 ∨ d = 4 ∨ d = 5 ∨ d = 6 ∨ d = 7 ∨ d = 8 ∨ d = 9 ∨ d = 10 ∨ d = 11 ∨
+      d = 12 ∨ d = 13 ∨ d = 14 ∨ d = 15 := by omega
+  rcases this with h | h | h | h | h | h | h | h | h | h | h | h | h | h | h | h <;> subst h <;> decide
+
+def hexStep (a : Option Nat) (c : UInt8) : Option Nat :=
+  match a, hexValB c with | some x, some d => some (x * 16 + d) | _, _ => none
+
+theorem foldl_hexStep (ds : List Nat) (x : Nat) (h : ∀ d ∈ ds, d < 16) :
+    (ds.map hexDigitC).foldl hexStep (some x) = some (ds.foldl horner x) := by
+  induction ds generalizing x with
+  | nil => rfl
+  | cons d t ih =>
+    have hd := (hexVal_digit d (h d (by simp))).1
+    simp only [List.map_cons, List.foldl_cons, hexStep, hd]
+    exact ih _ (fun e he => h e (by simp [he]))
+
+theorem takeWhile_all {α} (p : α → Bool) (l : List α) (h : ∀ a ∈ l, p a = true) : l.takeWhile p = l := by
+  induction l with
+  | nil => rfl
+  | cons a t ih => simp [List.takeWhile, h a (by simp), ih (fun b hb => h b (by simp [hb]))]
+
+/-- hex round trip: the chunk-size line written with `%x` reads back as the same number -/
+theorem parseHexLine_hexNat (n : Nat) (h : n < 16 ^ 64) :
+    parseHexLine (hexNat n) = some n ∧ ∀ b ∈ hexNat n, b ≠ 13 := by
+  have hm := hexNatAux_map 64 n []
+  simp only [List.map_nil] at hm
+  have hlt := hexDigsAux_lt 64 n [] (by simp)
+  have hne := hexDigsAux_ne_nil 63 n []
+  have hv := hexDigsAux_val 64 n [] h
+  unfold hexNat
+  rw [hm]
+  constructor
+  · unfold parseHexLine
+    have htw : ((hexDigsAux 64 n []).map hexDigitC).takeWhile (· != 59) = (hexDigsAux 64 n []).map hexDigitC := by
+      apply takeWhile_all
+      intro a ha
+      simp only [List.mem_map] at ha
+      obtain ⟨d, hd, rfl⟩ := ha
+      simpa using (hexVal_digit d (hlt d hd)).2.1
+    simp only [htw]
+    have hnil : ((hexDigsAux 64 n []).map hexDigitC).isEmpty = false := by
+      cases hx : hexDigsAux 64 n [] with
+      | nil => exact absurd hx hne
+      | cons a t => rfl
+    simp only [hnil]
+    have := foldl_hexStep (hexDigsAux 64 n []) 0 hlt
+    simp only [hv, List.foldl_nil] at this
+    exact this
+  · intro b hb
+    simp only [List.mem_map] at hb
+    obtain ⟨d, hd, rfl⟩ := hb
+    exact (hexVal_digit d (hlt d hd)).2.2
+
+theorem term_bytes : strBytes "0\r\n\r\n" = [48, 13, 10, 13, 10] := by decide
+
+/-- the last-chunk + empty trailer section ends the body -/
+theorem dechunk_terminator (fuel : Nat) (rest acc : Bytes) :
+    dechunk (fuel + 1) (strBytes "0\r\n\r\n" ++ rest) acc = some (acc, rest, true) := by
+  rw [term_bytes]
+  have h1 : takeLine ([48, 13, 10, 13, 10] ++ rest) [] = some ([48], 13 :: 10 :: rest) := by
+    simp [takeLine]
+  have h2 : parseHexLine [48] = some 0 := by decide
+  have h3 : parseHeaderLines (fuel + 1) (13 :: 10 :: rest) [] = some ([], rest) := by
+    simp [parseHeaderLines, takeLine]
+  unfold dechunk
+  simp only [h1, h2, h3]
+
+/-- one rendered chunk is decoded to its payload -/
+theorem dechunk_piece (fuel : Nat) (p rest acc : Bytes) (hp : p ≠ []) (hl : p.length < 16 ^ 64) :
+    dechunk (fuel + 1) (renderPiece true p ++ rest) acc = dechunk fuel rest (acc ++ p) := by
+  obtain ⟨hx, hcr⟩ := parseHexLine_hexNat p.length hl
+  have hbs : renderPiece true p ++ rest = hexNat p.length ++ 13 :: 10 :: (p ++ 13 :: 10 :: rest) := by
+    simp [renderPiece, crlf, List.append_assoc]
+  have h1 : takeLine (renderPiece true p ++ rest) [] = some (hexNat p.length, p ++ 13 :: 10 :: rest) := by
+    rw [hbs]; simpa using takeLine_append (hexNat p.length) (p ++ 13 :: 10 :: rest) [] hcr
+  obtain ⟨m, hm⟩ : ∃ m, p.length = m + 1 := by
+    cases p with
+    | nil => exact absurd rfl hp
+    | cons a t => exact ⟨t.length, rfl⟩
+  rw [hm] at hx
+  conv => lhs; unfold dechunk
+  simp only [h1, hm, hx]
+  have hlen : ¬ (p ++ 13 :: 10 :: rest).length < m + 1 + 2 := by simp; omega
+  have hdrop : List.drop (m + 1) (p ++ 13 :: 10 :: rest) = 13 :: 10 :: rest := by
+    rw [← hm]; simp
+  have htake : List.take (m + 1) (p ++ 13 :: 10 :: rest) = p := by
+    rw [← hm]; simp
+  have hdrop2 : List.drop (m + 1 + 2) (p ++ 13 :: 10 :: rest) = rest := by
+    rw [← List.drop_drop, hdrop]; rfl
+  simp [hdrop, htake, hdrop2, crlf]
+  intro hc; omega
+
+/-- **chunked layer**: the body the writer renders in chunking mode (one chunk per chunkWriter.Write,
+    then `0\r\n\r\n`) is decoded by the RFC 7230 §4.1 reference decoder to exactly the concatenated
+    payloads, complete, with `rest` left over -/
+theorem dechunk_pieces (pieces : List Bytes) (rest acc : Bytes) (fuel : Nat)
+    (hne : ∀ p ∈ pieces, p ≠ []) (hl : ∀ p ∈ pieces, p.length < 16 ^ 64) (hf : pieces.length < fuel) :
+    dechunk fuel (pieces.flatMap (renderPiece true) ++ strBytes "0\r\n\r\n" ++ rest) acc
+      = some (acc ++ pieces.flatten, rest, true) := by
+  induction pieces generalizing acc fuel with
+  | nil =>
+    obtain ⟨f, rfl⟩ : ∃ f, fuel = f + 1 := ⟨fuel - 1, by simp at hf; omega⟩
+    simpa using dechunk_terminator f rest acc
+  | cons p t ih =>
+    obtain ⟨f, rfl⟩ : ∃ f, fuel = f + 1 := ⟨fuel - 1, by simp at hf; omega⟩
+    have := dechunk_piece f p (t.flatMap (renderPiece true) ++ strBytes "0\r\n\r\n" ++ rest) acc
+      (hne p (by simp)) (hl p (by simp))
+    simp only [List.flatMap_cons, List.append_assoc] at this ⊢
+    rw [this]
+    have := ih (acc ++ p) f (fun q hq => hne q (by simp [hq])) (fun q hq => hl q (by simp [hq]))
+      (by simp at hf; omega)
+    simpa [List.append_assoc] using this
+
+
 end BfeVerif.C27
